@@ -138,7 +138,8 @@ def gen_cases(ctx, n):
             for r in rng.sample(dups, min(len(dups), 4)):
                 ty = struct.unpack("<H", r["type"])[0]
                 evs.append({"op": "req", "req": ("FindByTypeValue", 1, 0xFFFF, ty, r["value"][:16]), "hooks": {}})
-            evs.append({"op": "req", "req": ("ReadByType", 1, 0xFFFF, struct.unpack("<H", dups[0]["type"])[0]), "hooks": {}})
+            for ty in sorted({struct.unpack("<H", r["type"])[0] for r in dups})[:4]:
+                evs.append({"op": "req", "req": ("ReadByType", 1, 0xFFFF, ty), "hooks": {}})
         cases.append((spec, evs))
     return cases
 
